@@ -128,22 +128,26 @@ def toList : (sh : Shape) → State sh → List Int
   | .filter p s, (l, i) => if l.done then [] else (toList s i).filter p
   | .limit lim s, (l, i) => if lim > 0 then (toList s i).take (lim.toNat - l.count) else toList s i
 
-/-! JSONIter over a token stream. A token is `some v` (a well-formed JSON value) or `none`
-(malformed input: Decode returns a non-EOF error). End of list = io.EOF. -/
-structure JIt where
-  toks : List (Option Int)
+/-! JSONIter over a token stream, for any element type `α` (Go: `JSONIter[T]`; `zero` is T's zero
+value, i.e. the fresh `var val T` that every `Next` decodes into). A token is `some v` (a well-formed
+JSON value, decoded into a FRESH variable — never merged into the previous one) or `none` (malformed
+input: Decode returns a non-EOF error). End of list = io.EOF. -/
+structure JIt (α : Type) where
+  zero : α
+  toks : List (Option α)
   done : Bool := false
-  val : Int := 0
+  val : α
   err : Bool := false
 
 namespace JIt
-def next (j : JIt) : JIt × Bool :=
+def fresh {α : Type} (zero : α) (toks : List (Option α)) : JIt α := { zero := zero, toks := toks, val := zero }
+def next {α : Type} (j : JIt α) : JIt α × Bool :=
   if j.done then (j, false)
   else match j.toks with
-    | [] => ({ j with done := true, val := 0, err := false }, false)
-    | some v :: r => ({ toks := r, done := false, val := v, err := false }, true)
-    | none :: r => ({ toks := r, done := true, val := 0, err := true }, true)
-def close (j : JIt) : JIt := { j with done := true }
+    | [] => ({ j with done := true, val := j.zero, err := false }, false)
+    | some v :: r => ({ j with toks := r, done := false, val := v, err := false }, true)
+    | none :: r => ({ j with toks := r, done := true, val := j.zero, err := true }, true)
+def close {α : Type} (j : JIt α) : JIt α := { j with done := true }
 end JIt
 
 end C43
